@@ -18,12 +18,15 @@ package mapping
 //@   ensures [options-checked] calls(validateJsonNumberRange) == 1 && ret(validateJsonNumberRange) == nil ==> calls(validateValueInOptions) == 1 && (ret(validateValueInOptions) != nil ==> result == ret(validateValueInOptions) && calls(SetInt) + calls(SetUint) + calls(SetFloat) == 0)
 //@   ensures [int-exact-and-fitting] calls(SetInt) == 1 ==> ret(Int64, 1) == nil && arg(SetInt, 1) == i64 && calls(OverflowInt) == 1 && arg(OverflowInt, 1) == i64 && !ret(OverflowInt) && before(OverflowInt, SetInt)
 //@   ensures [int-overflow-rejected] calls(OverflowInt) == 1 && ret(OverflowInt) ==> result != nil && calls(SetInt) == 0
-//@   ensures [uint-exact-and-fitting] calls(SetUint) == 1 ==> ret(Int64, 1) == nil && i64 >= 0 && arg(SetUint, 1) == i64 && calls(OverflowUint) == 1 && arg(OverflowUint, 1) == i64 && !ret(OverflowUint)
-//@   ensures [negative-into-unsigned-rejected] calls(SetUint) + calls(OverflowUint) >= 1 ==> i64 >= 0
+// an unsigned field takes the document's number as an UNSIGNED number (through Int64 every valid uint64 from 2^63 up
+// would be refused): exactly that value, only after OverflowUint said it fits; a negative number never reaches it
+//@   replay-for uint-exact-and-fitting mapping_uint64
+//@   ensures [uint-exact-and-fitting] calls(SetUint) == 1 ==> calls(strconv.ParseUint) == 1 && ret(strconv.ParseUint, 1) == nil && arg(strconv.ParseUint, 0) == ret(String, 0, last) && arg(strconv.ParseUint, 1) == 10 && arg(strconv.ParseUint, 2) == 64 && arg(SetUint, 1) == ret(strconv.ParseUint, 0) && calls(OverflowUint) == 1 && arg(OverflowUint, 1) == ret(strconv.ParseUint, 0) && !ret(OverflowUint)
+//@   ensures [negative-into-unsigned-rejected] calls(SetUint) + calls(OverflowUint) >= 1 ==> calls(strings.HasPrefix) == 1 && arg(strings.HasPrefix, 1) == "-" && !ret(strings.HasPrefix)
 //@   ensures [uint-overflow-rejected] calls(OverflowUint) == 1 && ret(OverflowUint) ==> result != nil && calls(SetUint) == 0
 //@   ensures [float-exact-and-fitting] calls(SetFloat) == 1 ==> ret(Float64, 1) == nil && arg(SetFloat, 1) == ret(Float64, 0) && calls(OverflowFloat) == 1 && arg(OverflowFloat, 1) == ret(Float64, 0) && !ret(OverflowFloat)
 //@   ensures [float-overflow-rejected] calls(OverflowFloat) == 1 && ret(OverflowFloat) ==> result != nil && calls(SetFloat) == 0
-//@   ensures [conversion-error-passed-on] calls(Int64) == 1 && ret(Int64, 1) != nil ==> result == ret(Int64, 1) && calls(SetInt) + calls(SetUint) == 0
+//@   ensures [conversion-error-passed-on] (calls(Int64) == 1 && ret(Int64, 1) != nil ==> result == ret(Int64, 1) && calls(SetInt) + calls(SetUint) == 0) && (calls(strconv.ParseUint) == 1 && ret(strconv.ParseUint, 1) != nil ==> result == ret(strconv.ParseUint, 1) && calls(SetUint) == 0)
 //@   ensures [success-means-stored] result == nil && calls(validateValueInOptions) == 1 && calls(newTypeMismatchError) == 0 ==> calls(SetInt) + calls(SetUint) + calls(SetFloat) == 1
 
 // Values that already have the field's Go kind: stored only if they fit (never wrapped or truncated).
